@@ -653,7 +653,7 @@ class C18(Check):
                     else:
                         term = ''
                     out.append('\\' + h + term)
-                    if (c == quote or c in '\n\r\f') and i > 0 and content[i - 1] == '\\':
+                    if c == quote and i > 0 and content[i - 1] == '\\':
                         self.last_hexquote_after_bs = True
                 else:
                     out.append('\\' + c)          # simple escape
@@ -1124,8 +1124,6 @@ class C18(Check):
                     term = rng.choice([' ', '\t']) if (nxt == '' or nxt in self.HEXD or nxt in ' \t\n\r\f' or rng.random() < 0.5) else ''
                     out.append('\\' + h + term)
                     self.last_spell.append('hex')
-                    if c in '\n\r\f"\'' and i > 0 and content[i - 1] == '\\':
-                        self.last_hexquote_after_bs = True
                 else:
                     out.append('\\' + c)
                     self.last_spell.append('simple')
@@ -1171,7 +1169,7 @@ class C18(Check):
                 continue
             r = pv[0].uri
             self.src_cases.append(('U', src, r))
-            kf_read = ('C18-backslash-then-hex-escape' if hexq else 'C18-url-line-continuation' if linecont
+            kf_read = ('C18-backslash-then-hex-escape' if hexq
                        else 'C18-url-edge-escape' if edge_ws else None)
             needs_quotes = any(c in '()\'";,' or c.isspace() or ord(c) < 0x20 or c == '\x7f' for c in want)
             kf = kf_read or ('C18-escaped-dquote' if sdq
